@@ -91,6 +91,29 @@ def emit(p, fname, naming=0):
                 "slice": "\t%s, %s := pick(%s)[0:], pick(%s)[:]\n"}[p.get("src", "pick")] % (x, y, a, b)
         return sig + init + ("\t%s := 0\n\tfor %s := 0; %s < clamp(%s); %s++ {\n\t\tif %s %s 1 {\n\t\t\t%s\n\t\t} else {\n\t\t\t%s\n\t\t}\n\t}\n\treturn %s\n}\n"
                       % (s_, i, i, a, i, i, cmpop, first, second, s_))
+    if t == "effects":
+        one, two = {"stores": ("*p = %d" % p["v1"], "*q = %d" % p["v2"]), "calls": ("bump(1)", "bump(2)"),
+                    "mapupd": ("m[clamp(%s)] = %d" % (a, p["v1"]), "m[clamp(%s)] = %d" % (b, p["v2"]))}[p["kind"]]
+        first, second = (one, two) if p["order"] == "12" else (two, one)
+        if p["kind"] == "stores":
+            return sig + "\tx, y := 0, 0\n\tp, q := &x, &y\n\tif %s > 0 {\n\t\tq = &x\n\t}\n\t%s\n\t%s\n\treturn x*10 + y\n}\n" % (a, first, second)
+        if p["kind"] == "calls":
+            return sig + "\tacc = %s\n\t%s\n\t%s\n\treturn acc\n}\n" % (a, first, second)
+        return sig + "\tm := map[int]int{}\n\t%s\n\t%s\n\treturn m[clamp(%s)]*10 + m[clamp(%s)]\n}\n" % (first, second, a, b)
+    if t == "armloops":
+        s_, i, j = N["s"], N["i"], N["j"]
+        A = "for %s := 0; %s < clamp(%s); %s++ {\n\t\t\t%s += %s * 2\n\t\t}" % (i, i, a, i, s_, i)
+        B = "for %s := 0; %s < clamp(%s); %s++ {\n\t\t\t%s += %s + 3\n\t\t}" % (j, j, b, j, s_, j)
+        cmpop, first, second = (NEG[p["cmp"]], B, A) if pres["flip"] else (p["cmp"], A, B)
+        return sig + "\t%s := 0\n\tif %s %s %s {\n\t\t%s\n\t} else {\n\t\t%s\n\t}\n\treturn %s\n}\n" % (s_, a, cmpop, b, first, second, s_)
+    if t == "maplen":
+        s_, i, x = N["s"], N["i"], N["x"]
+        mk, put = {"plain": ("map[int]bool{}", "%s[%s] = true"), "named": ("Set{}", "%s[%s] = true"),
+                   "chan": ("make(Queue, 8)", "%s <- %s")}[p["mty"]]
+        pre = "\tn := len(%s)\n" % x if p["where"] == "before" else ""
+        use = "len(%s)" % x if p["where"] == "in" else "n"
+        return sig + "\t%s := %s\n\t%s := 0\n%s\tfor %s := 0; %s < clamp(%s); %s++ {\n\t\t%s\n\t\t%s += %s\n\t}\n\treturn %s + %s\n}\n" % (
+            x, mk, s_, pre, i, i, a, i, put % (x, i), s_, use, s_, b)
     if t == "bigloop":
         s_, i = N["s"], N["i"]
         return sig + "\t%s := 0\n\tfor %s := %d; %s < %s; %s += %d {\n\t\t%s++\n\t}\n\treturn %s + %s\n}\n" % (
@@ -192,7 +215,7 @@ def emit(p, fname, naming=0):
     raise KeyError(t)
 
 
-HEADER = 'package %s\n\nimport (\n\t"math/bits"\n\t"unicode/utf16"\n\t"unicode/utf8"\n\n\tautil "example.com/minigo/a/util"\n\tbutil "example.com/minigo/b/util"\n)\n\nvar _ = bits.Len8\nvar _ = utf16.RuneLen\nvar _ = utf8.RuneLen\nvar _ = autil.Weight\nvar _ = butil.Weight\n\nvar sink int\n\nfunc clamp(v int) int {\n\tif v < 0 {\n\t\treturn 0\n\t}\n\tif v > 4 {\n\t\treturn 4\n\t}\n\treturn v\n}\n\nvar picks = [5]string{"", "ab", "abc", "abd", "b"}\n\nfunc pick(v int) string { return picks[clamp(v)] }\n\nfunc pick2(v, w int) (string, string) { return pick(v), pick(w) }\n\nvar tabs = [5][]int{{}, {1}, {3, -1}, {2, 2, 5}, {0, 4, 1, 7}}\n\nfunc tab(v int) []int { return tabs[clamp(v)] }\n\nfunc b2i(c bool) int {\n\tif c {\n\t\treturn 1\n\t}\n\treturn 0\n}\n\nfunc dm(x, y int) (int, int) { return x + y, x - y }\n\nfunc kind(v any) int {\n\tswitch v.(type) {\n\tcase int32:\n\t\treturn 1\n\tcase int64:\n\t\treturn 2\n\t}\n\treturn 3\n}\n\n'
+HEADER = 'package %s\n\nimport (\n\t"math/bits"\n\t"unicode/utf16"\n\t"unicode/utf8"\n\n\tautil "example.com/minigo/a/util"\n\tbutil "example.com/minigo/b/util"\n)\n\nvar _ = bits.Len8\nvar _ = utf16.RuneLen\nvar _ = utf8.RuneLen\nvar _ = autil.Weight\nvar _ = butil.Weight\n\nvar sink int\n\nvar acc int\n\nfunc bump(k int) { acc = acc*3 + k }\n\ntype Set map[int]bool\n\ntype Queue chan int\n\nfunc clamp(v int) int {\n\tif v < 0 {\n\t\treturn 0\n\t}\n\tif v > 4 {\n\t\treturn 4\n\t}\n\treturn v\n}\n\nvar picks = [5]string{"", "ab", "abc", "abd", "b"}\n\nfunc pick(v int) string { return picks[clamp(v)] }\n\nfunc pick2(v, w int) (string, string) { return pick(v), pick(w) }\n\nvar tabs = [5][]int{{}, {1}, {3, -1}, {2, 2, 5}, {0, 4, 1, 7}}\n\nfunc tab(v int) []int { return tabs[clamp(v)] }\n\nfunc b2i(c bool) int {\n\tif c {\n\t\treturn 1\n\t}\n\treturn 0\n}\n\nfunc dm(x, y int) (int, int) { return x + y, x - y }\n\nfunc kind(v any) int {\n\tswitch v.(type) {\n\tcase int32:\n\t\treturn 1\n\tcase int64:\n\t\treturn 2\n\t}\n\treturn 3\n}\n\n'
 
 
 def write_support(root):
